@@ -36,3 +36,7 @@ claim("C15", "proof",
       "VM side: Lean theorem that a MARK…RET frame restores fp/pp/gp exactly and nets one slot, hence every nev_execute returns with sp_before + 1 (counterexample to execute_restores_sp for every program = known finding), first/later execute entry logic; seeded API histories (several entry points, failing first call) replayed in lockstep; entry lookup checked against the function table; compile determinism checked differentially after other compilations kept alive",
       "Lean kernel + standard axioms; the compile-determinism half is differential testing (no table of file-scope globals was extracted)",
       "Lean 4 frame round-trip theorem + API-history lockstep correspondence + differential compile determinism", "DESIGN.md §3 C15")
+claim("C16", "proof",
+      "Lean theorems (a) over the destructor table of front/parser.y regenerated from the source text on every run: every heap-owning grammar symbol that bison can discard has a releasing destructor of the right type (listed exception: param_seq), values handed to the caller are not destructed, every grammar action takes charge of every owning value it pops; (b) over M-Ledger (malloc/free events of gc.c/object.c on top of M-Heap): over any history no double/invalid free, live blocks = sum over allocated cells, a collection frees exactly the blocks of the unreachable cells each once, gc_delete leaves nothing. Tied by translator (a) and by malloc/free-counting correspondence (b). Partial for the property as a whole: AST teardown, typechecker early returns and program/module/vm teardown are only observed by a seeded compile/run/dispose stream under ASan+LSan (testing)",
+      "Lean kernel + propext/Classical.choice/Quot.sound, gen/parsertab.py + bison's XML report, harness shims, sanitizer runtimes",
+      "Lean 4 finite-table decision over translator output; invariant induction for the ledger; malloc/free differential correspondence; sanitizer leak stream", "DESIGN.md §3 C16 + docs/DESIGN.add.C16.md")
